@@ -10,10 +10,25 @@ where for<'a> &'a Self: EucRingOps<Self> {}
 impl<T> DivRound for T
 where T: Integer, for<'x> &'x T: IntOps<T> {
     fn div_round(&self, q: &Self) -> Self {
-        let a = self.to_f64().unwrap();
-        let b = q.to_f64().unwrap();
-        let r = (a / b).round();
-        Self::from_f64(r).unwrap()
+        // the integer nearest to self / q, ties rounded away from zero (as `f64::round` does),
+        // computed exactly for operands of any size.
+        let (a, b) = (self, q);
+        let quo = a / b;
+        let rem = a % b;
+
+        // compare -|rem| and -|b| (negated magnitudes never overflow, even for the minimum integer).
+        let nr = if rem.is_positive() { -rem } else { rem };
+        let nb = if b.is_positive() { -b } else { b.clone() };
+
+        if nr <= &nb - &nr { // 2|rem| >= |b|
+            if a.is_negative() == b.is_negative() { 
+                quo + Self::one()
+            } else { 
+                quo - Self::one()
+            }
+        } else { 
+            quo
+        }
     }
 }
 
